@@ -80,7 +80,7 @@ class LexStream(Stream):
 
         rng = ctx.rng_for("lex")
         out = []
-        for _ in range(ctx.scale(1200, 15000)):
+        for _ in range(ctx.scale(800, 8000)):
             comments = rng.chance(40)
             ps = gen_pieces(rng, comments)
             if not ps:
@@ -203,7 +203,7 @@ class RenderStream(Stream):
     def cases(self, ctx):
         rng = ctx.rng_for("render")
         out = []
-        for _ in range(ctx.scale(500, 6000)):
+        for _ in range(ctx.scale(400, 3000)):
             c = gen_render_case(rng)
             if c is not None:
                 out.append(c)
@@ -398,7 +398,7 @@ class InterleaveStream(Stream):
     def cases(self, ctx):
         rng = ctx.rng_for("interleave")
         out = []
-        for _ in range(ctx.scale(4, 24)):
+        for _ in range(ctx.scale(4, 16)):
             n = rng.range(160, 185) if rng.chance(75) else rng.range(3, 20)
             specs = gen_env_specs(rng, n)
             sched = []
@@ -578,7 +578,7 @@ class MemoStream(Stream):
     def cases(self, ctx):
         rng = ctx.rng_for("memo")
         out = []
-        for _ in range(ctx.scale(150, 1500)):
+        for _ in range(ctx.scale(150, 1000)):
             m = rng.choice([0, 1, 2, 3, 5, 10, 128])
             nk = rng.range(1, 2 * m + 4) if m < 100 else rng.range(100, 200)
             out.append({"maxsize": m, "keys": [rng.below(nk) for _ in range(rng.range(1, 40) if m < 100 else rng.range(200, 500))]})
